@@ -63,6 +63,7 @@ def correspondence(ctx):
     # both orders), astral characters - next to every kind of context
     strs += gen.unicode_strings(ctx.rng('tok/uni'), ctx.pick(4000, 40000))
     strs += gen.codepoint_docs(ctx.rng('tok/cp'), ctx.thorough)       # every code point in context (sampled when quick)
+    strs += gen.sizing_spacing_docs() + gen.length_boundary_docs() + gen.escape_docs()
     impl = gen.pmap(_tok_impl, strs)
     model = common.model_batch_parallel(['tok ' + common.enc(s) for s in strs])
     for s, a, b in zip(strs, impl, model):
@@ -129,6 +130,7 @@ def oracle(ctx, seeds, scale):
     strs += [chr(i) for i in range(0, 0x3000)] + [chr(rg.randrange(0x3000, sys.maxunicode + 1)) for _ in range(2000)]
     strs += gen.unicode_strings(ctx.rng('oracle/uni'), ctx.pick(4000, 40000) * scale)
     strs += gen.codepoint_docs(ctx.rng('oracle/cp'), ctx.thorough)
+    strs += gen.sizing_spacing_docs() + gen.length_boundary_docs() + gen.escape_docs()
     res = gen.pmap(_oracle_one, strs)
     for s, x in zip(strs, res):
         r.count(s, len(s) > 1)
